@@ -1029,6 +1029,8 @@ class Interp:
         except _Return as r:
             return r.value
         finally:
+            if fr is not None and getattr(fr, "is_root", False):
+                self.ctx.exit_locals = sub.locals      # `_exit.<local>` in postconditions
             self.ctx.leave(info)
         return None
 
